@@ -25,6 +25,7 @@ SIG_IMPLICIT = "StructureTransformer._assign_categorical:implicit-last-probabili
 SIG_FLOAT = "float_to_rational:float-arithmetic-before-rationalisation"
 SIG_TYPES_COMMENT = "syntax.lark:typedefs:comment-line-between-typedefs"
 SIG_PROBS = "PolyAssignment:no-probability-validation"
+SIG_LITERAL = "decimal-literal-not-read-exactly"
 PARSE_ERRORS = ("lark-syntax", "parse-exception", "constructor-error")
 
 
@@ -166,6 +167,111 @@ def defect_dump(p, logs):
     return T.alpha_normalise(d)
 
 
+def flag_dump(p, sp):
+    """same shape as the model dump, but every polynomial is replaced by a bool: may the CAS have combined a
+    decimal literal of the originating expression (as spelled by sp) with another numeral in float arithmetic?
+    A lone decimal literal must be read exactly, whatever its length."""
+    def fe(e):
+        return T.may_combine_floats(T.surf_expr(e, sp))
+
+    def fc(c):
+        if c[0] in ("true", "false"):
+            return [c[0]]
+        if c[0] == "atom":
+            a, b = T.surf_expr(c[1], sp), T.surf_expr(c[3], sp)
+            na, da = T.count_literals(a)
+            nb, db = T.count_literals(b)
+            return ["atom", T.may_combine_floats(a) or T.may_combine_floats(b), c[2]]
+        if c[0] == "not":
+            return ["not", fc(c[1])]
+        return [c[0], fc(c[1]), fc(c[2])]
+
+    def fr(r):
+        if r[0] == "draw":
+            d = r[1]
+            if d[0] == "bern":
+                return ["draw", "Bernoulli", [fe(d[1])]]
+            if d[0] == "cat":
+                return ["draw", "Categorical", [fe(q) for q in d[1]]]
+            if d[0] == "unif":
+                return ["draw", "DiscreteUniform", [False, False]]
+            return ["draw", d[1], [fe(q) for q in d[2]]]
+        alts = [[fe(q), fe(e)] for q, e in r[1]]
+        if sp.last_prob == "implicit" and len(alts) >= 2:
+            alts[-1][0] = any(a[0] for a in alts[:-1])     # 1 - sum of the (separately rationalised) listed ones
+        return ["choice", alts]
+
+    def fs(b):
+        out = []
+        for s in b:
+            if s[0] == "assign":
+                out.append(["assign", s[1], fr(s[2])])
+            elif s[0] == "simult":
+                for x, r in s[1]:
+                    out.append(["assign", "_", fr(r)])
+                for x, r in s[1]:
+                    out.append(["assign", x, ["choice", [[False, False]]]])
+            else:
+                brs = [[fc(c), fs(bb)] for c, bb in s[1]]
+                els = fs(s[2]) if s[2] is not None else None
+                out.append(T.flatten_if(["if", brs, els]))
+        return out
+
+    return {"types": None, "init": fs(p["init"]), "guard": fc(p["guard"]), "body": fs(p["body"])}
+
+
+def prob_flags(fd):
+    """all flags at probability / distribution-parameter positions of a flag dump"""
+    out = []
+
+    def walk(b):
+        for st in b:
+            if st[0] == "assign":
+                r = st[2]
+                if r[0] == "choice":
+                    out.extend(a[0] for a in r[1])
+                elif r[0] == "draw":
+                    out.extend(r[2])
+            else:
+                for _, bb in st[1]:
+                    walk(bb)
+                if st[2] is not None:
+                    walk(st[2])
+
+    walk(fd["init"])
+    walk(fd["body"])
+    return out
+
+
+def localise(model, polar, flags, path=""):
+    """walk the three parallel dumps; -> list of (path, kind) for every differing polynomial leaf:
+    kind 'float' (rounding-sized difference where float combination is possible), 'exact-required'
+    (difference at a lone literal or beyond rounding), 'structure' (anything else)"""
+    if model == polar:
+        return []
+    if isinstance(flags, bool):
+        if _is_poly(model) and _is_poly(polar) and flags and coarse(model) == coarse(polar):
+            return [(path, "float")]
+        if _is_poly(model) and _is_poly(polar):
+            return [(path, "exact-required" if not flags else "structure")]
+        return [(path, "structure")]
+    if isinstance(model, dict) and isinstance(polar, dict) and isinstance(flags, dict):
+        out = []
+        for k in model:
+            if k == "types":
+                if model[k] != polar.get(k):
+                    out.append((path + "/types", "exact-required"))
+                continue
+            out += localise(model[k], polar.get(k), flags.get(k), path + "/" + k)
+        return out
+    if isinstance(model, list) and isinstance(polar, list) and isinstance(flags, list) and len(model) == len(polar) == len(flags):
+        out = []
+        for i, (a, b, f) in enumerate(zip(model, polar, flags)):
+            out += localise(a, b, f, f"{path}/{i}")
+        return out
+    return [(path, "structure")]
+
+
 def _is_poly(x):
     return isinstance(x, list) and all(isinstance(t, list) and len(t) == 2 and isinstance(t[0], str) and "/" in t[0]
                                        and isinstance(t[1], list) for t in x)
@@ -262,6 +368,12 @@ def parse_correspondence(ctx, hist):
                         ctx.coverage["discharged"] += 1
                     continue
                 if sp.consts == "dec" and baseline_ok and "err" in x and x["err"]["kind"] == "constructor-error" \
+                        and "sum up to 1" in x["err"]["msg"] and not any(prob_flags(flag_dump(p, sp))):
+                    ctx.violation(SIG_LITERAL + ":probabilities-rejected", dict(replay, polar=x),
+                                  "decimal spelling rejected although every probability is a lone decimal literal: "
+                                  "some literal is not read as its exact decimal value")
+                    continue
+                if sp.consts == "dec" and baseline_ok and "err" in x and x["err"]["kind"] == "constructor-error" \
                         and "sum up to 1" in x["err"]["msg"]:
                     # Categorical(0, 2/3, 0.5 - 1/6): the float difference is rationalised to 0.333333333333333
                     if not ctx.violation(SIG_FLOAT, dict(replay, polar=x),
@@ -283,17 +395,27 @@ def parse_correspondence(ctx, hist):
             sigs = []
             if x["ok"] == dd and dd != md:
                 sigs = [SIG_IMPLICIT]
-            elif sp.consts == "dec" and approx_equal(x["ok"], md):
-                sigs = [SIG_FLOAT]
-            elif sp.consts == "dec" and dd != md and approx_equal(x["ok"], dd):
-                sigs = [SIG_IMPLICIT, SIG_FLOAT]
+            elif sp.consts == "dec":
+                base = md
+                if dd != md and coarse(x["ok"]) == coarse(dd):
+                    base = dd
+                diffs = localise(base, x["ok"], flag_dump(p, sp))
+                replay["differences"] = diffs
+                kinds_ = {k_ for _, k_ in diffs}
+                if diffs and kinds_ == {"float"}:
+                    sigs = [SIG_FLOAT] + ([SIG_IMPLICIT] if base is dd else [])
+                elif "exact-required" in kinds_ and "structure" not in kinds_:
+                    ctx.violation(SIG_LITERAL + ":" + kind, replay,
+                                  "a decimal literal that is the only numeral of its expression (coefficient, constant, probability, "
+                                  f"parameter, type value) is not read as its exact decimal value: {diffs[:3]}")
+                    continue
             if sigs:
                 new = False
-                for s in sigs:
+                for s_ in sigs:
                     what = ("omitted last probability is built from the unparenthesised probability texts: "
-                            "1-a+b instead of 1-(a+b)") if s == SIG_IMPLICIT else \
+                            "1-a+b instead of 1-(a+b)") if s_ == SIG_IMPLICIT else \
                         "decimal literals are combined in float arithmetic before float_to_rational: inexact coefficient"
-                    new = ctx.violation(s, replay, what) or new
+                    new = ctx.violation(s_, replay, what) or new
                 if not new:
                     ctx.coverage["discharged"] += 1
                     hist["known"][sigs[0]] = hist["known"].get(sigs[0], 0) + 1
@@ -309,6 +431,76 @@ def frac_twin(e):
     if e[0] == "var":
         return e
     return (e[0],) + tuple(frac_twin(a) for a in e[1:])
+
+
+# ---- lone decimal literals of every length must be read exactly (C19_decimal_fraction_same) -----------------
+def literal_check(ctx, hist):
+    rng = ctx.rng
+    n = ctx.pick(14, 80)
+    lits = [Fraction(1234567890123456789, 10 ** 19), Fraction(3333333333333333333, 10 ** 19), 2 + Fraction(1, 10 ** 20),
+            Fraction(1, 4) + Fraction(1, 10 ** 19), Fraction(1234567890123456, 10 ** 16), Fraction(12345678901234567, 10 ** 17)]
+    lits += [T.long_decimal(rng) for _ in range(n - len(lits))]
+    one = ("const", Fraction(1))
+    texts, meta = [], []
+    for q in lits:
+        u = q - int(q) if not (0 < q < 1) else q          # a probability with the same digits
+        if u == 0:
+            u = Fraction(1, 3 * 10 ** 18).limit_denominator(10 ** 20) + Fraction(1, 8)
+        c, cu = ("const", q), ("const", u)
+        p = {"types": [("w", sorted({q, Fraction(0)}))],
+             "init": [("assign", "x", ("choice", [(one, c)])), ("assign", "y", ("choice", [(one, ("neg", c))]))],
+             "guard": ("atom", ("var", "x"), "<", c),
+             "body": [("assign", "x", ("choice", [(one, ("mul", c, ("var", "y")))])),
+                      ("assign", "y", ("choice", [(one, ("add", ("mul", ("var", "x"), c), ("var", "y")))])),
+                      ("assign", "z", ("choice", [(cu, ("var", "x")), (("const", 1 - u), ("var", "y"))])),
+                      ("assign", "u", ("draw", ("bern", cu))),
+                      ("assign", "v", ("draw", ("cat", [cu, ("const", 1 - u)]))),
+                      ("assign", "w", ("draw", ("cont", "Normal", [c, ("var", "x")]))),
+                      ("simult", [("x", ("choice", [(one, c)])), ("y", ("draw", ("cont", "Uniform", [("neg", c), c])))]),
+                      ("if", [(("atom", c, ">=", ("var", "y")), [("assign", "x", ("choice", [(one, ("pow", ("var", "x"), 2))]))])], None)]}
+        md = T.model_dump(p)
+        for lp in ("explicit", "implicit"):
+            sp = T.Spelling(rng, consts="dec", parens=rng.choice(["min", "random"]), last_prob=lp,
+                            ws=rng.choice(["normal", "tight", "wide"]))
+            assert not any(f for f in _flat_flags(flag_dump(p, sp)))
+            texts.append(T.prog_text(p, sp))
+            meta.append((q, p, md, sp))
+    res = (yield [{"kind": "c19_parse", "texts": texts[i:i + 10], "timeout": 120} for i in range(0, len(texts), 10)])
+    flat = []
+    for r in res:
+        flat += r.get("results", [{"err": {"kind": "worker", "etype": r.get("error", "?"), "msg": ""}}] * 10)
+    stat = {"texts": 0, "exact": 0, "digits": {}}
+    for (q, p, md, sp), text, x in zip(meta, texts, flat):
+        stat["texts"] += 1
+        nd = len(str(T.dec_parts(abs(q))[0]))
+        stat["digits"][nd] = stat["digits"].get(nd, 0) + 1
+        ctx.coverage["obligations"] += 1
+        ctx.count({"t": text}, nontrivial=True)
+        if x.get("err", {}).get("kind") == "worker":
+            ctx.coverage["obligations"] -= 1
+            continue
+        if x.get("ok") == md:
+            stat["exact"] += 1
+            ctx.coverage["discharged"] += 1
+            if stat["exact"] <= 1:
+                ctx.sample({"kind": "lone-decimal-literals", "text": text, "agrees_with_exact_decimal_value": True})
+            continue
+        diffs = localise(md, x["ok"], flag_dump(p, sp)) if "ok" in x else [("", str(x.get("err") or x.get("dump_error")))]
+        ctx.violation(SIG_LITERAL + f":{nd}-digits", {"text": text, "literal": str(q), "spelling": sp.describe(), "polar": x,
+                                                      "model_dump": md, "differences": diffs},
+                      f"the decimal literal with value {q} ({nd} significant digits) standing alone as coefficient / constant / "
+                      f"probability / parameter / type value / condition bound is not read exactly: {diffs[:3]}")
+    hist["lone_literals"] = stat
+
+
+def _flat_flags(x):
+    if isinstance(x, bool):
+        return [x]
+    if isinstance(x, dict):
+        return [f for v in x.values() for f in _flat_flags(v)]
+    if isinstance(x, list):
+        return [f for v in x for f in _flat_flags(v)]
+    return []
 
 
 # ---- arithmetic precedence ---------------------------------------------------------------------------
@@ -376,8 +568,8 @@ def precedence_check(ctx, hist):
                     ctx.sample({"expr": text, "polar_reads": x["str"], "python_value_at_points": [str(v) for v in want_vals]})
                     k += 1
                 continue
-            # decimal literal combined with other constants in float arithmetic (known)
-            if T.has_decimal(e):
+            # decimal literal combined with other constants in float arithmetic (known); a lone literal must be exact
+            if T.may_combine_floats(e):
                 close = True
                 if want_poly is not None:
                     close = approx_equal(x["poly"], want_poly)
@@ -392,7 +584,7 @@ def precedence_check(ctx, hist):
                     if not ctx.violation(SIG_FLOAT, replay, "decimal literals are combined in float arithmetic before float_to_rational"):
                         ctx.coverage["discharged"] += 1
                     continue
-            if T.has_decimal(e):
+            if T.may_combine_floats(e):
                 pending.append((e, text, x, replay))
                 continue
             ctx.violation(f"precedence:{text}", replay,
@@ -814,6 +1006,7 @@ def run(ctx):
     # all Polar work goes through ONE worker pool (worker start-up = importing sympy + Polar dominates
     # otherwise); the phases are generators that yield their task lists and receive the answers
     gens = [("analysis", analysis_check(ctx, hist)), ("parse", parse_correspondence(ctx, hist)),
+            ("literals", literal_check(ctx, hist)),
             ("precedence", precedence_check(ctx, hist)), ("malformed", malformed_check(ctx, hist)),
             ("probabilities", invalid_probability_check(ctx, hist)), ("goals", goal_check(ctx, hist)),
             ("quirks", quirk_stream(ctx))]
